@@ -16,7 +16,7 @@ from .refs import NEEDS_TB, OUT_OF_DOMAIN
 
 class Verdict:
     __slots__ = ("status", "msg", "round", "trace", "ref_states", "transitions", "end_kinds",
-                 "exhaust", "steps_taken", "ood_reason", "ignored_tie")
+                 "exhaust", "steps_taken", "ood_reason", "ignored_tie", "per_round")
 
     def __init__(self):
         self.status = "ok"  # ok | violation | out_of_domain
@@ -29,6 +29,7 @@ class Verdict:
         self.exhaust = []
         self.steps_taken = []  # per round: kind of the matched step(s)
         self.ood_reason = None
+        self.per_round = []  # per_round[r] = list of reference states compatible after round r
         self.ignored_tie = False  # the run went on where the reference needs a tiebreak
 
 
@@ -50,6 +51,7 @@ def follow(states, exc, case, cfg):
     cs = case[0]
     init = (refs.linear(case), frozenset(cs), 0)
     cur = {refs.state_key(init): init}
+    v.per_round.append([init])
     v.ref_states.add(refs.state_key(init))
     trace = []
 
@@ -135,6 +137,7 @@ def follow(states, exc, case, cfg):
         trace.append((E, X[0] if X else None, tuple(sorted(sc.items()))))
         v.steps_taken.append(tuple(sorted(kinds)))
         cur = nxt
+        v.per_round.append(list(cur.values()))
         v.ref_states.update(cur.keys())
 
     v.trace = tuple(trace)
